@@ -511,8 +511,9 @@ func treeHash(repo string) string {
 	return fmt.Sprintf("%x", h.Sum(nil))[:16]
 }
 
-func (a *A) finish(p *Prop, verifDir string, seed int64, start time.Time, extraInfo map[string]any) int {
-	// floors
+// floorFailures: one undecided obligation per rule that produced fewer obligations than the floor
+// confirmed by hand (vacuity guard).
+func (a *A) floorFailures() []*Ob {
 	counts := map[string]int{}
 	for _, o := range a.obs {
 		counts[o.Rule]++
@@ -522,12 +523,20 @@ func (a *A) finish(p *Prop, verifDir string, seed int64, start time.Time, extraI
 		floorRules = append(floorRules, r)
 	}
 	sort.Strings(floorRules)
+	var out []*Ob
 	for _, r := range floorRules {
 		if counts[r] < a.floors[r] {
-			a.curRule = "checker-integrity"
-			a.add(&Ob{Rule: "checker-integrity", Construct: r + "#floor", Verdict: Undecided,
+			out = append(out, &Ob{Rule: "checker-integrity", Construct: r + "#floor", Verdict: Undecided,
 				Detail: fmt.Sprintf("rule %s produced %d obligations, floor confirmed by hand is %d — the rule has gone (partly) blind", r, counts[r], a.floors[r])})
 		}
+	}
+	return out
+}
+
+func (a *A) finish(p *Prop, verifDir string, seed int64, start time.Time, extraInfo map[string]any) int {
+	for _, o := range a.floorFailures() {
+		a.curRule = "checker-integrity"
+		a.add(o)
 	}
 	known, err := loadKnown(filepath.Join(verifDir, "known_findings.json"))
 	if err != nil {
@@ -595,7 +604,7 @@ func (a *A) finish(p *Prop, verifDir string, seed int64, start time.Time, extraI
 		}
 	}
 	ruleCounts := map[string]any{}
-	for r, c := range counts {
+	for r, c := range perRule {
 		ruleCounts[r] = map[string]int{"obligations": c, "floor": a.floors[r]}
 	}
 	cov := map[string]any{
@@ -607,15 +616,15 @@ func (a *A) finish(p *Prop, verifDir string, seed int64, start time.Time, extraI
 		"distinct_nontrivial": nontriv,
 		"rule": "one obligation per construct a rule instance quantifies over (call site, store, loop, implementation, encoder, table row); " +
 			"distinct = distinct rule+construct keys; non-trivial = the rule had something to decide at that construct (not flagged trivial)",
-		"samples":       samples,
-		"rules":         ruleCounts,
-		"packages":      len(a.TPkgs),
-		"ssa_functions": len(a.allFuncs),
-		"mod_functions": len(a.ModFuncs),
-		"tree_hash":     treeHash(a.Repo),
-		"toolchain":     runtime.Version(),
+		"samples":        samples,
+		"rules":          ruleCounts,
+		"packages":       len(a.TPkgs),
+		"ssa_functions":  len(a.allFuncs),
+		"mod_functions":  len(a.ModFuncs),
+		"tree_hash":      treeHash(a.Repo),
+		"toolchain":      runtime.Version(),
 		"known_findings": knownHit,
-		"report":        repPath,
+		"report":         repPath,
 	}
 	for k, v := range a.info {
 		cov[k] = v
